@@ -201,7 +201,7 @@ def run_case(case, env):
         out['probes']['earlier_derivations_from_a_dropped_grammar'] = 1
     obj = build(case['spec'])
     nontrivial = _run_phase(case, env, obj, out, dig)
-    if case.get('edit') and kind in ('dfa', 'nfa', 'pda', 'cfg'):
+    if case.get('edit') and kind in ('dfa', 'nfa', 'pda', 'cfg') and not out.get('stop'):
         # object-lifetime history: simulate, edit the live object in place, simulate again
         set_knobs(limit=1000)
         try:
@@ -217,6 +217,7 @@ def run_case(case, env):
         nontrivial = _run_phase(case, env, obj, out, dig) or nontrivial
         for v in out['viol'][n0:]:
             v['tags'] = list(v.get('tags', [])) + ['after-inplace-edit']
+    out.pop('stop', None)
     if nontrivial:
         out['nontrivial_keys'] = [case['abs']]
         out['probes']['nontrivial'] = 1
@@ -237,6 +238,7 @@ def _run_phase(case, env, obj, out, dig):
         if st == 'timeout':
             out['viol'].append(viol('no-result-within-budget', site, {'word': w, 'ticks': ticks}))
             dig.append('T')
+            out['stop'] = 1      # one exceeded budget per case is enough
             return False
         if st == 'exc':
             out['viol'].append(viol('exception', site, {'word': w, 'exc': val}))
@@ -255,6 +257,8 @@ def _run_phase(case, env, obj, out, dig):
             acc = N.accepts(w)
             st, val, ticks = call(env, fn, obj, w, budget=BUDGET)
             if not record(st, val, ticks, site, w):
+                if out.get('stop'):
+                    break
                 continue
             rows = _plain_rows(val)
             if acc:
@@ -280,9 +284,13 @@ def _run_phase(case, env, obj, out, dig):
             pb = 500_000 + 12000 * (max(case.get('limit', 1000), 1000) + 30) * (len(w) + 1) ** 2
             st, lib_acc, ticks = call(env, pa.pda_accepts_word, obj, w, budget=pb)
             if not record(st, lib_acc, ticks, 'pda_accepts_word', w):
+                if out.get('stop'):
+                    break
                 continue
             st, val, ticks = call(env, pa.pda_simulate_word, obj, w, budget=500_000 + 20 * ticks)
             if not record(st, val, ticks, 'pda_simulate_word', w):
+                if out.get('stop'):
+                    break
                 continue
             rows = _plain_rows(val)
             if not exact:
@@ -316,11 +324,15 @@ def _run_phase(case, env, obj, out, dig):
         L = rcfg.lang_upto(snap0, max([len(w) for w in case['words']] + [3]))
         extra = sorted((w for w in L if w and w not in case['words']), key=lambda w: (-len(w), w))[:3]
         for w in list(case['words']) + extra:
+            if out.get('stop'):
+                break
             if not w or w not in L:
                 continue    # precondition of the statement: non-empty word generated by the grammar
             for mode in ('leftmost', 'rightmost'):
                 st, val, ticks = call(env, ca.cfg_derive_word, obj, w, mode, budget=BUDGET)
                 if not record(st, val, ticks, 'cfg_derive_word', w):
+                    if out.get('stop'):
+                        break
                     continue
                 try:
                     d = _deriv_plain(val)
